@@ -204,24 +204,29 @@ Open Scope N_scope.
 Definition kcmd_keys (c : Data.MapK.kcmd) : list bytes :=
   match c with
   | Data.MapK.KCset k _ | Data.MapK.KCsetnx k _ | Data.MapK.KCgetset k _ | Data.MapK.KCincrby k _
-  | Data.MapK.KCappend k _ | Data.MapK.KCsetrange k _ _ => [k]
+  | Data.MapK.KCappend k _ | Data.MapK.KCsetrange k _ _
+  | Data.MapK.KCsetex k _ _ | Data.MapK.KCexpire k _ | Data.MapK.KCpersist k => [k]
   | Data.MapK.KCdel ks => ks
   | Data.MapK.KCinvalid => []
   end.
+Definition ctype_tag (t : ctype) : N :=
+  match t with TH => hash_type | TS => set_type | TZ => zset_type | TL => list_type end.
 Definition cmd_targets (c : cmd) : list (N * bytes) :=
   match c with
   | CHset _ key _ _ | CHmset key _ | CHdel key _ | CHincrby key _ _ | CHclear key => [(hash_type, key)]
   | CSadd key _ | CSrem key _ | CSpop key _ | CSclear key => [(set_type, key)]
   | CZ key _ => [(zset_type, key)]
   | CL key _ => [(list_type, key)]
+  | CExpire t key _ | CPersist t key => [(ctype_tag t, key)]
   | CK kc => map (fun k => (kv_type, k)) (kcmd_keys kc)
   | _ => []
   end.
 
-Definition rec_hash (s : mstate) (k : bytes) := alook Data.Map.empty_coll k (m_hash s).
-Definition rec_set (s : mstate) (k : bytes) := alook Data.Map.empty_coll k (m_set s).
-Definition rec_zset (s : mstate) (k : bytes) := alook Data.MapZ.empty_zcoll k (m_zset s).
-Definition rec_list (s : mstate) (k : bytes) := alook Data.MapL.empty_lcoll k (m_list s).
+(* the stored record of a (type, "table:key"): the collection record with the ExpireAt of its header *)
+Definition rec_hash (s : mstate) (k : bytes) := alook (x0 Data.Map.empty_coll) k (m_hash s).
+Definition rec_set (s : mstate) (k : bytes) := alook (x0 Data.Map.empty_coll) k (m_set s).
+Definition rec_zset (s : mstate) (k : bytes) := alook (x0 Data.MapZ.empty_zcoll) k (m_zset s).
+Definition rec_list (s : mstate) (k : bytes) := alook (x0 Data.MapL.empty_lcoll) k (m_list s).
 Definition rec_kv (s : mstate) (k : bytes) := Data.Base.aget bytes_eqb k (m_kv s).
 
 Lemma alook_aput_ne {V} (d : V) k k' v m : k <> k' -> alook d k' (Data.Base.aput bytes_eqb k v m) = alook d k' m.
@@ -233,7 +238,7 @@ Proof. intros H. unfold aupd. destruct (f (alook d k m)) as [v r]. cbn [fst]. no
 Lemma let_pair_fst {A B C} (p : A * B) (g : A -> C) : fst (let '(m, r) := p in (g m, r)) = g (fst p).
 Proof. destruct p; reflexivity. Qed.
 
-Lemma kdel_fold_frame ks k' (m : Data.MapK.kstore) : ~ In k' ks ->
+Lemma kdel_fold_frame {V} ks k' (m : list (bytes * V)) : ~ In k' ks ->
   Data.Base.aget bytes_eqb k' (fold_left (fun m k => if Data.Base.key_ok k then Data.Base.adel bytes_eqb k m else m) ks m) =
   Data.Base.aget bytes_eqb k' m.
 Proof.
@@ -243,33 +248,24 @@ Proof.
   apply (Data.BaseFacts.aget_adel_ne bytes_eqb bytes_eqb_eq). intros ->. apply Hn. now left.
 Qed.
 
-Lemma kstep_frame ts kc m k' : ~ In k' (kcmd_keys kc) ->
-  Data.Base.aget bytes_eqb k' (fst (Data.MapK.kstep ts kc m)) = Data.Base.aget bytes_eqb k' m.
+(* every string command writes (aput / adel) only under its own key(s); the proof does not depend on what
+   the commands compute, only on where they write *)
+Lemma kstep_frame compact ts kc m k' : ~ In k' (kcmd_keys kc) ->
+  Data.Base.aget bytes_eqb k' (fst (Data.MapK.kstep compact ts kc m)) = Data.Base.aget bytes_eqb k' m.
 Proof.
-  intros Hn. destruct kc; cbn [kcmd_keys] in Hn; cbn [Data.MapK.kstep];
-    try (assert (Hne : k <> k') by (intros ->; apply Hn; now left)).
-  - destruct (_ || _); cbn [fst]; [reflexivity|]. now apply (Data.BaseFacts.aget_aput_ne bytes_eqb bytes_eqb_eq).
-  - destruct (_ || _); cbn [fst]; [reflexivity|]. destruct (Data.MapK.kget k m); cbn [fst]; [reflexivity|].
-    now apply (Data.BaseFacts.aget_aput_ne bytes_eqb bytes_eqb_eq).
-  - destruct (_ || _); cbn [fst]; [reflexivity|]. now apply (Data.BaseFacts.aget_aput_ne bytes_eqb bytes_eqb_eq).
-  - destruct (negb _); cbn [fst]; [reflexivity|].
-    destruct (match Data.MapK.kget k m with Some b => Data.Base.parse_int64 b | None => Some 0%Z end); cbn [fst]; [|reflexivity].
-    destruct (negb _); cbn [fst]; [reflexivity|]. now apply (Data.BaseFacts.aget_aput_ne bytes_eqb bytes_eqb_eq).
-  - destruct (negb _); cbn [fst]; [reflexivity|].
-    destruct (Data.MapK.kget k m) as [old|], v as [|v0 v]; cbn [fst]; try reflexivity;
-      (destruct (_ <? _)%Z; cbn [fst]; [reflexivity|]; now apply (Data.BaseFacts.aget_aput_ne bytes_eqb bytes_eqb_eq)).
-  - destruct (_ || _); cbn [fst]; [reflexivity|]. destruct v as [|v0 v].
-    + destruct (negb _); reflexivity.
-    + destruct (_ <? _)%Z; cbn [fst]; [reflexivity|]. destruct (negb _); cbn [fst]; [reflexivity|].
-      now apply (Data.BaseFacts.aget_aput_ne bytes_eqb bytes_eqb_eq).
-  - cbn [fst]. apply kdel_fold_frame. intros H. apply Hn.
-    now apply (proj1 (Data.BaseFacts.dedup_nil_In ks k')).
-  - reflexivity.
+  intros Hn. destruct kc; cbn [kcmd_keys] in Hn; cbn [Data.MapK.kstep]; cbv zeta;
+    try (assert (Hne : k <> k') by (intros ->; apply Hn; now left));
+    try (cbn [fst]; apply kdel_fold_frame; intros H; apply Hn; now apply (proj1 (Data.BaseFacts.dedup_nil_In ks k')));
+    repeat match goal with
+           | |- context [match ?x with _ => _ end] => destruct x
+           end;
+    cbn [fst]; try reflexivity; now apply (Data.BaseFacts.aget_aput_ne bytes_eqb bytes_eqb_eq).
 Qed.
 
-(* MAIN (Map level): every command leaves every record it does not address unchanged — all commands, both policies *)
-Theorem map_step_frame compact ts c s :
-  let s' := fst (map_step compact ts c s) in
+(* MAIN (Map level): every command leaves every record it does not address unchanged — all commands
+   (incl. *EXPIRE / *PERSIST), both policies, every clock *)
+Theorem map_step_frame compact now ts c s :
+  let s' := fst (map_step compact now ts c s) in
   (forall k, ~ In (hash_type, k) (cmd_targets c) -> rec_hash s' k = rec_hash s k) /\
   (forall k, ~ In (set_type, k) (cmd_targets c) -> rec_set s' k = rec_set s k) /\
   (forall k, ~ In (zset_type, k) (cmd_targets c) -> rec_zset s' k = rec_zset s k) /\
@@ -277,7 +273,12 @@ Theorem map_step_frame compact ts c s :
   (forall k, ~ In (kv_type, k) (cmd_targets c) -> rec_kv s' k = rec_kv s k).
 Proof.
   cbv zeta. unfold rec_hash, rec_set, rec_zset, rec_list, rec_kv.
-  destruct c; cbn [map_step cmd_targets]; rewrite ?let_pair_fst; cbn [fst m_hash m_set m_zset m_list m_kv];
+  destruct c; cbn [map_step cmd_targets ctype_tag];
+    repeat match goal with
+           | |- context [if negb (Data.Base.key_ok ?k) then _ else _] => destruct (negb (Data.Base.key_ok k))
+           | t : ctype |- _ => destruct t
+           end;
+    rewrite ?let_pair_fst; cbn [fst m_hash m_set m_zset m_list m_kv ctype_tag];
     repeat split; intros k0 Hn; try reflexivity;
     try (apply aupd_frame; intros ->; apply Hn; left; reflexivity).
   apply kstep_frame. intros H. apply Hn. apply in_map_iff. eauto.
@@ -285,10 +286,12 @@ Qed.
 
 (* ---------- 4. down to the engine's byte keys ---------- *)
 
-(* what the engine stores under a structured key (the value encodings are not the subject here) *)
+(* what the engine stores under a structured key (the value encodings are not the subject here); the
+   ExpireAt second of the value header travels with the meta record / the string value *)
 Inductive cell : Type :=
-| CMeta (m : Data.Map.cmeta)
-| CLMeta (m : Data.MapL.lmeta)
+| CMeta (m : Data.Map.cmeta) (exp : Z)
+| CLMeta (m : Data.MapL.lmeta) (exp : Z)
+| CKV (v : Data.MapK.kvrec)
 | CBytes (b : bytes)
 | CScore (sc : Data.Base.score)
 | CUnit.
@@ -299,26 +302,28 @@ Definition zimem (v : Z) (sc : Data.Base.score) (m : bytes) (idx : list Data.Map
 Definition cell_of (s : mstate) (k : mkey) : option cell :=
   match k with
   | MKMeta ty raw =>
-      if ty =? hsize_type then option_map CMeta (Data.Map.c_meta (rec_hash s raw))
-      else if ty =? ssize_type then option_map CMeta (Data.Map.c_meta (rec_set s raw))
-      else if ty =? zsize_type then option_map CMeta (Data.Map.c_meta (Data.MapZ.z_c (rec_zset s raw)))
-      else if ty =? lmeta_type then option_map CLMeta (Data.MapL.l_meta (rec_list s raw))
+      if ty =? hsize_type then option_map (fun m => CMeta m (x_exp (rec_hash s raw))) (Data.Map.c_meta (x_r (rec_hash s raw)))
+      else if ty =? ssize_type then option_map (fun m => CMeta m (x_exp (rec_set s raw))) (Data.Map.c_meta (x_r (rec_set s raw)))
+      else if ty =? zsize_type then
+        option_map (fun m => CMeta m (x_exp (rec_zset s raw))) (Data.Map.c_meta (Data.MapZ.z_c (x_r (rec_zset s raw))))
+      else if ty =? lmeta_type then option_map (fun m => CLMeta m (x_exp (rec_list s raw))) (Data.MapL.l_meta (x_r (rec_list s raw)))
       else None
   | MKElem dt raw ver sub =>
-      if dt =? hash_type then option_map CBytes (Data.Map.eget ver sub (Data.Map.c_elems (rec_hash s raw)))
-      else if dt =? set_type then option_map (fun _ => CUnit) (Data.Map.eget ver sub (Data.Map.c_elems (rec_set s raw)))
-      else if dt =? zset_type then option_map CScore (Data.Map.eget ver sub (Data.Map.c_elems (Data.MapZ.z_c (rec_zset s raw))))
+      if dt =? hash_type then option_map CBytes (Data.Map.eget ver sub (Data.Map.c_elems (x_r (rec_hash s raw))))
+      else if dt =? set_type then option_map (fun _ => CUnit) (Data.Map.eget ver sub (Data.Map.c_elems (x_r (rec_set s raw))))
+      else if dt =? zset_type then
+        option_map CScore (Data.Map.eget ver sub (Data.Map.c_elems (Data.MapZ.z_c (x_r (rec_zset s raw)))))
       else None
-  | MKScore raw ver sc m => if zimem ver sc m (Data.MapZ.z_index (rec_zset s raw)) then Some CUnit else None
-  | MKSeq raw ver seq => option_map CBytes (Data.MapL.lget ver seq (Data.MapL.l_elems (rec_list s raw)))
-  | MKKV raw => option_map CBytes (rec_kv s raw)
+  | MKScore raw ver sc m => if zimem ver sc m (Data.MapZ.z_index (x_r (rec_zset s raw))) then Some CUnit else None
+  | MKSeq raw ver seq => option_map CBytes (Data.MapL.lget ver seq (Data.MapL.l_elems (x_r (rec_list s raw))))
+  | MKKV raw => option_map CKV (rec_kv s raw)
   end.
 
 (* the content of a structured key depends only on the record of its owner *)
-Theorem cell_frame compact ts c s k : ~ In (mkey_owner k) (cmd_targets c) ->
-  cell_of (fst (map_step compact ts c s)) k = cell_of s k.
+Theorem cell_frame compact now ts c s k : ~ In (mkey_owner k) (cmd_targets c) ->
+  cell_of (fst (map_step compact now ts c s)) k = cell_of s k.
 Proof.
-  intros Hn. destruct (map_step_frame compact ts c s) as (Fh & Fs & Fz & Fl & Fk).
+  intros Hn. destruct (map_step_frame compact now ts c s) as (Fh & Fs & Fz & Fl & Fk).
   destruct k as [ty raw|dt raw ver sub|raw ver sc m|raw ver seq|raw]; cbn [cell_of mkey_owner] in *.
   - unfold meta_owner in Hn.
     destruct (ty =? hsize_type); [now rewrite Fh|].
@@ -336,7 +341,6 @@ Qed.
 Section Engine.
   Variable compact : bool.
   Variable score_bits : Data.Base.score -> N.
-  (* the scores that are float64 values (Map's SFin z is an integer-valued double: |z| within the exact range) *)
   Variable score_dom : Data.Base.score -> Prop.
   Hypothesis score_bits_ok : forall s, score_dom s -> float_ok (score_bits s).
   Hypothesis score_bits_inj : forall a b, score_dom a -> score_dom b ->
@@ -362,9 +366,9 @@ Section Engine.
 
   (* MAIN (clause (d)): a command leaves the content under every engine BYTE key that belongs to another
      (type, table:key) unchanged — the byte key's owner is well defined by [mkey_bytes_inj] *)
-  Theorem engine_frame ts c s b v k : mkey_ok compact score_dom k -> mkey_bytes compact score_bits k = Some b ->
+  Theorem engine_frame now ts c s b v k : mkey_ok compact score_dom k -> mkey_bytes compact score_bits k = Some b ->
     ~ In (mkey_owner k) (cmd_targets c) ->
-    engine s b v -> engine (fst (map_step compact ts c s)) b v.
+    engine s b v -> engine (fst (map_step compact now ts c s)) b v.
   Proof.
     intros Hk Eb Hn (k' & Hk' & Eb' & <-).
     assert (k' = k) by (apply (mkey_bytes_inj compact score_bits score_dom score_bits_ok score_bits_inj k' k b); assumption). subst k'.
@@ -372,9 +376,9 @@ Section Engine.
   Qed.
 
   (* and conversely nothing appears under such a key *)
-  Theorem engine_frame_rev ts c s b v k : mkey_ok compact score_dom k -> mkey_bytes compact score_bits k = Some b ->
+  Theorem engine_frame_rev now ts c s b v k : mkey_ok compact score_dom k -> mkey_bytes compact score_bits k = Some b ->
     ~ In (mkey_owner k) (cmd_targets c) ->
-    engine (fst (map_step compact ts c s)) b v -> engine s b v.
+    engine (fst (map_step compact now ts c s)) b v -> engine s b v.
   Proof.
     intros Hk Eb Hn (k' & Hk' & Eb' & <-).
     assert (k' = k) by (apply (mkey_bytes_inj compact score_bits score_dom score_bits_ok score_bits_inj k' k b); assumption). subst k'.
